@@ -153,7 +153,26 @@ def main_loop_part(ctx, diffs):
 
     def nt(scen, obs):
         return D.scen_key(scen) if len([m for m in obs.get('marked', [])]) > len(scen['groups']['first']) + len(scen['groups']['main']) + len(scen['groups']['last']) else None
-    D.sweep(ctx, scens, [orc], diffs, nt)
+    D.sweep(ctx, scens + [stop_family(ctx.rng) for _ in range(12 if ctx.tier == 'quick' else 100)], [orc, oracle_stop], diffs, nt)
+
+
+def stop_family(rng):
+    """a pass that never runs out of cursors and relies on its helper saying STOP (comments, blank, includes, clang, clex work
+    like that): with one test at a time nothing is started after the candidate that said STOP, whatever the options"""
+    S = rng.randint(2, 5)
+    k = rng.randrange(S)
+    p = {'name': 'p0', 'maxT': None, 'new': {'0': 0}, 'adv': {f'0.{j}': (j + 1) % S for j in range(S)}, 'aos': {},
+         'tr': {f'0.{j}': ['STOP' if j == k else 'INVALID', 0, j] for j in range(S)}}
+    return {'texts': ['abcdef', 'abc'], 'files': ['a.c'], 'disk': [0], 'passes': [p], 'groups': {'first': [], 'main': [0], 'last': []},
+            'cfg': {'cacheOn': rng.random() < 0.5, 'silent': rng.random() < 0.6, 'noGiveUp': False, 'die': False}, 'consts': {'GIVEUP_CONSTANT': 12},
+            'test': {'0': 0, '1': 0}, 'faults': {}, 'N': 1, 'p_done': 1.0, 'wait_policy': 'first', 'mode': 'pass', 'contract': False, 'rank': [0, 1],
+            'fuel': 400, 'stop_at': k + 1}
+
+
+def oracle_stop(scen, obs):
+    if 'stop_at' in scen and len([1 for rid, _ in obs.get('scheduled', []) if rid == 0]) > scen['stop_at']:
+        return 'candidates-started-after-the-pass-said-STOP'
+    return None
 
 
 def run(ctx):
@@ -173,7 +192,7 @@ def run(ctx):
             finally:
                 STRESS, T.PASSES = saved, passes
         else:
-            D.replay_drv(ctx, o, [])
+            D.replay_drv(ctx, o, [oracle_stop])
         print('replayed ->', 'fails' if ctx.violations else 'holds')
         return 1 if ctx.violations else 0
     ctx.lean_gate(OBLIGATIONS)
